@@ -438,7 +438,14 @@ mod v5 {
             StateError::EmptySubscription => "EmptySubscription".into(),
             StateError::InvalidAlias { alias, max } => format!("InvalidAlias:{alias}:{max}"),
             StateError::ServerDisconnect { reason_code, .. } => format!("ServerDisconnect:{}", *reason_code as u8),
-            StateError::ConnFail { reason } => format!("ConnFail:{}", if *reason == ConnectReturnCode::Success { 0 } else { 135 }),
+            StateError::ConnFail { reason } => format!(
+                "ConnFail:{}",
+                match reason {
+                    ConnectReturnCode::Success => 0,
+                    ConnectReturnCode::ProtocolError => 130,
+                    _ => 135,
+                }
+            ),
             other => format!("Other:{}", format!("{other:?}").split(|c: char| !c.is_alphanumeric()).next().unwrap_or("")),
         }
     }
